@@ -293,7 +293,9 @@ impl Property for C03 {
                     return o;
                 }
                 let lost = case["comments"].as_array().map(|a| a.iter().any(|cm| !out_comments.iter().any(|c| Some(c.as_str()) == cm["text"].as_str()))).unwrap_or(false);
-                if lost {
+                // (replay files of other known classes may satisfy this predicate too: only the
+                // replay that names this class is judged for it)
+                if lost && case["judge_class"].as_str() == Some("doc-attribute-swallows-item") {
                     return Outcome::fail("lost:doc-attribute-swallows-item", format!("a comment of the item header went into the doc comment made from the attribute\n{src}\n--->\n{}", r.text)).nontrivial(true);
                 }
             }
